@@ -149,7 +149,9 @@ func check(c Case) (o ev.Outcome) {
 	}
 	if !obs.Clean() {
 		cls := schema.ErrClass(obs.ErrText())
-		if cls != "unknown-group" && cls != "duplicate-node" && cls != "duplicate-key" {
+		switch cls {
+		case "unknown-type", "unknown-prefix", "bad-range", "bad-length", "circular", "identity", "augment", "deviat", "no-such-module", "no-such-submodule", "not-found":
+			// judged by C09/C10 (types), C07 (augments), C08 (deviations), C11 (identities), C13 (linkage)
 			o.OutOfClaim = "valid set rejected for a reason outside grouping expansion (" + cls + ")"
 			return
 		}
